@@ -336,7 +336,8 @@ func H_C09_toplevel() {
 	var e = newEvent(nil)
 	switch kind {
 	case 0:
-		e.Payload = map[string]interface{}{"k": a, "n": 1}
+		// values of an untagged map: text, a number, a list of texts, a list of byte strings
+		e.Payload = map[string]interface{}{"k": a, "n": 1, "sl": []string{b}, "bl": [][]byte{[]byte(b)}}
 	case 1:
 		// "blob" is a byte-slice value reached through a pointer tag: what is protected is its bytes, not a rendering of them
 		e.Payload = tMapPayload{"token": a, "user": b, "note": "n", "other": a, "blob": []byte(b), "sub": map[string]interface{}{"token": b, "x": a}}
@@ -378,6 +379,13 @@ func H_C09_toplevel() {
 		if ok {
 			v, _ := m["k"].(string)
 			c.checkLeaf(v, a, "", NoOperation, "C09.toplevel.untagged-map-value")
+			sl, _ := m["sl"].([]string)
+			bl, _ := m["bl"].([][]byte)
+			verifAssert(len(sl) == 1 && len(bl) == 1, "C10.toplevel.untagged-map-lists-preserved")
+			if len(sl) == 1 && len(bl) == 1 {
+				c.checkLeaf(sl[0], b, "", NoOperation, "C09.toplevel.untagged-map-string-list")
+				c.checkLeaf(string(bl[0]), b, "", NoOperation, "C09.toplevel.untagged-map-bytes-list")
+			}
 		}
 	case 1:
 		m, ok := out.Payload.(tMapPayload)
